@@ -319,6 +319,10 @@ def _same_index(a, labels):
     return len(a) == len(labels) and all(x == z for x, z in zip(list(a), labels))
 
 
+def _fl(a):
+    return [round(float(v), 4) for v in np.asarray(a, dtype=float).ravel()]
+
+
 def _close(a, b):
     try:
         return bool(np.isclose(float(a), float(b), rtol=1e-9, atol=1e-12, equal_nan=True))
@@ -484,8 +488,8 @@ def run_case(R, c, seed=0):
                   and np.allclose(np.asarray(p, dtype=float), hon[i]["pred"], rtol=1e-9, equal_nan=True))
             R.check("returned-data-is-the-folds-data", ok,
                     f"{fold}: cells have y_train {list(getattr(a, 'index', []))[:1]}..{list(getattr(a, 'index', []))[-1:]}, "
-                    f"y_test {list(getattr(b, 'index', []))}, y_pred {list(getattr(p, 'index', []))} = {list(np.round(np.asarray(p, dtype=float), 4)) if isinstance(p, pd.Series) else p}; "
-                    f"honest forecast {list(np.round(hon[i]['pred'], 4))}")
+                    f"y_test {list(getattr(b, 'index', []))}, y_pred {list(getattr(p, 'index', []))} = {_fl(p) if isinstance(p, pd.Series) else p}; "
+                    f"honest forecast {_fl(hon[i]['pred'])}")
     if not c["return_data"]:
         R.check("returned-data-is-the-folds-data", not any(k in res.columns for k in ("y_train", "y_test", "y_pred")),
                 f"{desc}: return_data=False but columns are {list(res.columns)}")
@@ -531,8 +535,8 @@ def run_case(R, c, seed=0):
             ok = (isinstance(a, pd.Series) and _same_index(a.index, [labels[k] for k in te]) and np.allclose(np.asarray(a, dtype=float), yv[te])
                   and len(b) == len(te) and np.allclose(np.asarray(b, dtype=float), np.asarray(preds[i]["out"], dtype=float), equal_nan=True))
             R.check("metric-called-as-y-true-y-pred", ok,
-                    f"{desc}: fold {i}: metric got first argument {list(np.round(np.asarray(a, dtype=float), 4))} second {list(np.round(np.asarray(b, dtype=float), 4))}; "
-                    f"y_true is {list(yv[te])}, the forecast was {list(np.round(np.asarray(preds[i]['out'], dtype=float), 4))}")
+                    f"{desc}: fold {i}: metric got first argument {_fl(a)} second {_fl(b)}; "
+                    f"y_true is {_fl(yv[te])}, the forecast was {_fl(preds[i]['out'])}")
         R.check("metric-called-as-y-true-y-pred", len(scoring.calls) == len(splits), f"{desc}: metric called {len(scoring.calls)} times for {len(splits)} splits")
 
 
